@@ -177,6 +177,7 @@ type fragOut struct {
 	locals  string
 	globals string
 	bc      *ugo.Bytecode
+	err     error
 }
 
 func (f fragOut) failed() bool { return f.kind != "ok" }
@@ -249,6 +250,7 @@ func runFragment(ev *ugo.Eval, src string) (fo fragOut) {
 	fo.locals = evalImgs(ev.Locals)
 	fo.globals = evalImg(ev.Globals)
 	if err != nil {
+		fo.err = err
 		fo.kind, fo.res = evalErrText(err)
 		return
 	}
@@ -457,13 +459,27 @@ func evalImplAnswer(frags []string, args []ugo.Object) string {
 	for _, f := range frags {
 		fo := runFragment(ev, f)
 		switch fo.kind {
-		case "cerr", "perr", "goerr":
-			recs = append(recs, "cerr "+strings.Fields(fo.res + " -")[0])
+		case "cerr":
+			pos := "-"
+			if ce, ok := fo.err.(*ugo.CompilerError); ok && ce.Node != nil {
+				pos = fmt.Sprint(int(ce.Node.Pos()))
+			}
+			recs = append(recs, "cerr "+pos)
+		case "perr":
+			recs = append(recs, "cerr -")
 		case "panic":
 			recs = append(recs, "panic")
 		default:
-			rec := fmt.Sprintf("run %s consts=%s out=%s %s locals=%s globals=%s", showFn(fo.bc.Main),
-				showConsts(fo.bc.Constants, nconst), fo.kind, fo.res, fo.locals, fo.globals)
+			if fo.bc == nil {
+				recs = append(recs, "cerr -")
+				continue
+			}
+			outS := "val " + fo.res
+			if fo.err != nil {
+				outS = outcomeString(nil, fo.err, nil)
+			}
+			rec := fmt.Sprintf("run %s consts=%s out=%s locals=%s globals=%s", showFn(fo.bc.Main),
+				showConsts(fo.bc.Constants, nconst), outS, fo.locals, fo.globals)
 			nconst = len(fo.bc.Constants)
 			recs = append(recs, rec)
 		}
@@ -479,21 +495,7 @@ func evalSame(impl, model string) bool {
 		if strings.HasPrefix(rm[i], "unsupported") {
 			return true
 		}
-		if i >= len(ri) {
-			return false
-		}
-		if ri[i] != rm[i] {
-			if strings.HasPrefix(ri[i], "run ") && strings.HasPrefix(rm[i], "run ") {
-				// runtime error texts: compare the error name only when both are errors
-				pi, pm := strings.SplitN(ri[i], " out=rterr ", 2), strings.SplitN(rm[i], " out=rterr ", 2)
-				if len(pi) == 2 && len(pm) == 2 && pi[0] == pm[0] {
-					ni, nm := strings.SplitN(pi[1], ":", 2)[0], strings.SplitN(pm[1], ":", 2)[0]
-					ti, tm := pi[1][strings.Index(pi[1], " locals="):], pm[1][strings.Index(pm[1], " locals="):]
-					if ni == nm && ti == tm {
-						continue
-					}
-				}
-			}
+		if i >= len(ri) || ri[i] != rm[i] {
 			return false
 		}
 	}
